@@ -195,8 +195,93 @@ Fixpoint lz_fields (fuel : nat) (bs : bytes) : list (tag * value) * bool :=
     end
   end.
 
-Definition lzp_data (bs : bytes) : option (list (tag * value) * bool) :=
-  option_map (fun raw => lz_fields (length raw) raw) (lzp_data_raw bs).
+(* ---- BEHAVIOUR SWITCH: which of the two the tree under /repo currently is; the ONLY line to
+   change when the repair of the recorded finding lazy-data-retains-cg-after-resolve is committed.
+     false: bam::Record::data() lists every field of the raw data block, also the CG:B,I field that
+            cigar() resolved the CIGAR from (the eager decoder removes it: decoder/cigar.rs::resolve);
+     true:  when cigar() took the CG branch, Data::iter()/get() skip the CG field
+            (repair prepared as /tmp/C05/fixes/02-lazy-data-retains-cg-after-resolve.diff). ---- *)
+Definition cg_repaired : bool := false.
+
+(* record_ref.rs::cigar() took the CG branch: the stored operations are the kSmN placeholder and
+   get_raw_cigar found a CG:B,I array *)
+Definition cg_branch (bs : bytes) : bool :=
+  match lzp_cigar_raw bs, lzp_data_raw bs with
+  | Some src, Some data =>
+      is_placeholder bs src && (match raw_cigar (length data) data with Some _ => true | None => false end)
+  | _, _ => false
+  end.
+
+Definition not_cg (p : tag * value) : bool := negb (tag_eqb (fst p) CG).
+
+Definition lzp_data_sw (sw : bool) (bs : bytes) : option (list (tag * value) * bool) :=
+  option_map (fun raw => let (fs, e) := lz_fields (length raw) raw in
+                         if sw && cg_branch bs then (filter not_cg fs, e) else (fs, e))
+             (lzp_data_raw bs).
+
+Definition lzp_data (bs : bytes) : option (list (tag * value) * bool) := lzp_data_sw cg_repaired bs.
+
+(* ---- record/cigar.rs::Cigar::len / is_empty of cigar(): buffer length / 4 (no panic of their own;
+   cigar() itself slices) ---- *)
+Definition lzp_cigar_buf (bs : bytes) : option bytes :=
+  match lzp_cigar_raw bs with
+  | None => None
+  | Some src =>
+      if is_placeholder bs src then
+        match lzp_data_raw bs with
+        | None => None
+        | Some data => match raw_cigar (length data) data with Some buf => Some buf | None => Some src end
+        end
+      else Some src
+  end.
+
+Definition lzp_cigar_len (bs : bytes) : option (N * bool) :=
+  option_map (fun buf => (lenN buf / 4, lenN buf =? 0)) (lzp_cigar_buf bs).
+
+(* ---- sam RecordBuf::try_from_alignment_record(header, &lazy record) (record_buf/convert.rs): the
+   accessors in the order the conversion calls them; None = a panic, Err = the first error (all
+   io::ErrorKind::InvalidData except those of the lazy data fields, whose kind is not modelled);
+   Data::insert replaces the value of a tag already present, in place ---- *)
+Fixpoint insert_field (d : list (tag * value)) (t : tag) (v : value) : list (tag * value) :=
+  match d with
+  | [] => [(t, v)]
+  | (t', v') :: r => if tag_eqb t' t then (t', v) :: r else (t', v') :: insert_field r t v
+  end.
+
+Definition insert_all (fs : list (tag * value)) : list (tag * value) :=
+  fold_left (fun d p => insert_field d (fst p) (snd p)) fs [].
+
+Definition lazy_convert_sw (sw : bool) (bs : bytes) : option (res record) :=
+  match lzp_name bs with
+  | None => None
+  | Some name =>
+    match lz_rid bs with Err e => Some (Err e) | Ok rid =>
+    match lz_pos bs with Err e => Some (Err e) | Ok pos =>
+    match lzp_cigar bs with
+    | None => None
+    | Some (Err e) => Some (Err e)
+    | Some (Ok cig) =>
+      match lz_mrid bs with Err e => Some (Err e) | Ok mrid =>
+      match lz_mpos bs with Err e => Some (Err e) | Ok mpos =>
+      match lzp_seq bs with
+      | None => None
+      | Some sq =>
+        match lzp_qual bs with
+        | None => None
+        | Some ql =>
+          match lzp_data_sw sw bs with
+          | None => None
+          | Some (fs, e) =>
+              if e then Some bad
+              else Some (Ok (mkRecord name (lz_flags bs) rid pos (lz_mapq bs) cig mrid mpos (lz_tlen bs)
+                                      sq ql (insert_all fs)))
+          end
+        end
+      end end end
+    end end end
+  end.
+
+Definition lazy_convert (bs : bytes) : option (res record) := lazy_convert_sw cg_repaired bs.
 
 (* Data::get(tag): the first field with that tag, or the first error met before it *)
 Definition data_get (fs : list (tag * value) * bool) (t : tag) : option (res value) :=
